@@ -32,6 +32,7 @@ type Parser struct {
 	Errors              []error
 	DefineInfos         []string
 	BeforeString        string
+	IsLookAhead         bool
 }
 
 func New(lexer lexer.Lexer, file string) Parser {
